@@ -49,12 +49,12 @@ func init() {
 		Prop:    "C17",
 		Harness: hb(),
 		Entries: []EntrySpec{
-			{Pkg: "biscuit", Func: "VerifC17Revocation", Quick: p("blocks", 4), Thorough: p("blocks", 6), Covers: []string{"done"}},
+			{Pkg: "biscuit", Func: "VerifC17Revocation", Quick: p("blocks", 6), Thorough: p("blocks", 6), Covers: []string{"done"}},
 		},
 		Assumptions: append([]string{"fresh randomness is modelled by assuming all drawn seeds pairwise distinct; distinctness of identifiers then follows from injectivity of PUB and SIG in the ideal model"}, chainAssume...),
 		Models:      []string{modelSig, modelCodec},
 		Explanation: "revocation identifiers of every token of a derivation history are compared with the signatures found by an independent proto decoding and with each other",
-		LevelText:   "Bounded symbolic model checking: exactly one identifier per block; identifiers of derived tokens (append, seal, reload) start with the parent's, byte for byte; identifier i equals the signature field of signed block i of the decoded envelope; identifiers of all blocks of the history, a sibling with identical content and a twin token with identical content are pairwise distinct for all seed values.",
+		LevelText:   "Bounded symbolic model checking: exactly one identifier per block; identifiers of derived tokens (append, seal, reload) start with the parent's, byte for byte; identifier i equals the signature field of signed block i of the decoded envelope; identifiers of all blocks of the history, of a second child of every token of the chain (identical content) and of a twin token with identical content are pairwise distinct for all seed values; every token and sibling reports the same identifiers after all derivations as when it was created.",
 		LevelNote:   "Ideal signature model (deterministic, injective); 'independent decoder' is the ideal codec applied to pb.Biscuit, not a separate byte-level reader.",
 		DesignRef:   "DESIGN.md §6 C17",
 	})
